@@ -29,7 +29,24 @@ fn obs_of(s: &Searcher, tracer: &Tracer) -> Value {
     }
 }
 
+/// a Warmer that only logs: which generations it was asked to warm, which it was told are alive
+struct LogWarmer {
+    rid: usize,
+    tracer: Tracer,
+}
+impl tantivy::Warmer for LogWarmer {
+    fn warm(&self, searcher: &Searcher) -> tantivy::Result<()> {
+        self.tracer.emit(json!({"ev":"warm","r":self.rid,"sgen":searcher.generation().generation_id()}));
+        Ok(())
+    }
+    fn garbage_collect(&self, live_generations: &[&tantivy::SearcherGeneration]) {
+        let live: Vec<u64> = live_generations.iter().map(|g| g.generation_id()).collect();
+        self.tracer.emit(json!({"ev":"warm_gc","r":self.rid,"live":live}));
+    }
+}
+
 struct ReaderCtl {
+    slow: AtomicBool,
     stop: AtomicBool,
     reloads: AtomicU64,
 }
@@ -39,7 +56,8 @@ struct ReaderCtl {
 fn reader_thread(rid: usize, dir: SimDir, local_index: Index, remote: bool, tracer: Tracer, ctl: Arc<ReaderCtl>, seed: u64) {
     let mut rng = StdRng::seed_from_u64(seed);
     let index = if remote { Index::open(dir.clone()).expect("open second instance") } else { local_index };
-    let reader: IndexReader = match index.reader_builder().reload_policy(ReloadPolicy::Manual).try_into() {
+    let warmer: Arc<dyn tantivy::Warmer> = Arc::new(LogWarmer { rid, tracer: tracer.clone() });
+    let reader: IndexReader = match index.reader_builder().reload_policy(ReloadPolicy::Manual).warmers(vec![Arc::downgrade(&warmer)]).try_into() {
         Ok(r) => r,
         Err(e) => {
             tracer.emit(json!({"ev":"reader_new","r":rid,"ok":false,"err":format!("{e:?}")}));
@@ -56,12 +74,16 @@ fn reader_thread(rid: usize, dir: SimDir, local_index: Index, remote: bool, trac
             Ok(()) => {
                 let s = reader.searcher();
                 let obs = obs_of(&s, &tracer);
-                tracer.emit(json!({"ev":"reload","r":rid,"ok":true,"gen":gen,"obs":obs}));
+                let sgen = s.generation().generation_id();
+                tracer.emit(json!({"ev":"reload","r":rid,"ok":true,"gen":gen,"sgen":sgen,"obs":obs}));
                 if held.len() < 3 || rng.random_bool(0.3) {
                     if held.len() >= 3 {
+                        // (the release is logged before the searcher is dropped, the hold after it was taken)
+                        tracer.emit(json!({"ev":"release","r":rid,"sgen":held[0].1.generation().generation_id()}));
                         held.remove(0);
                     }
                     held.push((gen, s));
+                    tracer.emit(json!({"ev":"hold","r":rid,"sgen":sgen}));
                 }
             }
             Err(e) => {
@@ -75,7 +97,7 @@ fn reader_thread(rid: usize, dir: SimDir, local_index: Index, remote: bool, trac
             let obs = obs_of(s, &tracer);
             tracer.emit(json!({"ev":"held","r":rid,"gen":g,"obs":obs}));
         }
-        std::thread::sleep(Duration::from_micros(rng.random_range(50..1500)));
+        std::thread::sleep(if ctl.slow.load(Ordering::SeqCst) { Duration::from_millis(25) } else { Duration::from_micros(rng.random_range(50..1500)) });
     }
     // after the writer is gone and the files were collected: all held searchers once more
     for (g, s) in &held {
@@ -127,7 +149,7 @@ fn run_random(tracer: &Tracer, rng: &mut StdRng, nops: usize, nreaders: usize, r
     let mut w = World::new_quiet(tracer, &cfg, true);
     install_sink(tracer, w.regs.clone(), None);
     w.exec(&json!({"op":"new_writer"}));
-    let ctl = Arc::new(ReaderCtl { stop: AtomicBool::new(false), reloads: AtomicU64::new(0) });
+    let ctl = Arc::new(ReaderCtl { slow: AtomicBool::new(false), stop: AtomicBool::new(false), reloads: AtomicU64::new(0) });
     let mut handles = vec![];
     for rid in 0..nreaders {
         let remote = remote_mix && rid % 2 == 1;
@@ -150,6 +172,12 @@ fn run_random(tracer: &Tracer, rng: &mut StdRng, nops: usize, nreaders: usize, r
         while ctl.reloads.load(Ordering::SeqCst) < target && t0.elapsed() < Duration::from_millis(20) {
             std::thread::yield_now();
         }
+    }
+    if tag["linger"] == json!(true) {
+        // let the warmers' background collection (every second) run twice while the readers hold searchers
+        ctl.slow.store(true, Ordering::SeqCst);
+        std::thread::sleep(Duration::from_millis(2300));
+        ctl.slow.store(false, Ordering::SeqCst);
     }
     if w.writer.is_some() {
         w.exec(&json!({"op":"wait_merges"}));
@@ -300,7 +328,7 @@ fn main() {
     match mode.as_str() {
         "random" => {
             for r in 0..runs {
-                run_random(&tracer, &mut rng, a.num("ops", 25) as usize, a.num("readers", 2) as usize, a.flag("remote"), json!({"seed":seed,"run":r}));
+                run_random(&tracer, &mut rng, a.num("ops", 25) as usize, a.num("readers", 2) as usize, a.flag("remote"), json!({"seed":seed,"run":r,"linger": r % 12 == 0}));
             }
         }
         "gated" => {
